@@ -798,14 +798,14 @@ pub fn deep_cases() -> Vec<ChainCase> {
     out
 }
 
-pub const RULE: &str = "cases = 1-4 phases of up to 12 lending operations (make_ref of Tracked / a second tracked type / u32 / String, calls answered by an answer function using make_ref, calls answered by a returns()-configured borrowed value, calls through a default body running on the delegation helper, bursts of 64-256 values) spread over the original and up to 3 clones, each phase optionally closed by make_mut / a make_mut-answered &mut return, then optionally 2-8 threads lending concurrently through a shared &Unimock, then teardown (optionally on a 192 KiB stack, optionally by letting a user panic unwind through the scope that owns the instance). After every operation every reference obtained so far is re-read against a shadow copy and the drop registry is checked. deep = long chains (5k-51k values) and 2-8 threads x 2000 values. Non-trivial = >= 3 consecutive held values of the same type on one instance re-read after later pushes in a phase of >= 4 operations; distinct = distinct case";
+pub const RULE: &str = "cases = 1-4 phases of up to 12 lending operations (make_ref of Tracked / a second tracked type / u32 / String, calls answered by an answer function using make_ref, calls answered by a returns()-configured borrowed value, calls through a default body running on the delegation helper, bursts of 64-256 values) spread over the original and up to 3 clones, each phase optionally closed by make_mut / a make_mut-answered &mut return, then optionally 2-8 threads lending concurrently through a shared &Unimock, then teardown (optionally on a 192 KiB stack, optionally by letting a user panic unwind through the scope that owns the instance). After every operation every reference obtained so far is re-read against a shadow copy and the drop registry is checked. deep = long chains (5k-51k values) and 2-8 threads x 2000 values. scheduled-lent-answers = every schedule (yield points at the value-chain cells, the delegator cell, counters and locks) of 2 threads x 1-2 make_ref-answered calls through one shared &Unimock (thorough: also 3x1, 2x3), sampled schedules for 2-4 threads x 2-3 calls; oracle: every call reads the value made for it, at the call and when the thread ends, at an address of its own. Non-trivial = >= 3 consecutive held values of the same type on one instance re-read after later pushes in a phase of >= 4 operations; distinct = distinct case";
 
 pub fn run(ctx: &Ctx) -> Verdict {
     let mut v = Verdict::new("exploration", RULE);
     v.explanation = "Oracle = shadow list of (address, id, contents) for every reference still borrowed + a drop registry: no value is dropped while its owning instance is alive (except values a later make_mut may release), make_ref addresses are pairwise distinct, and after teardown every value was dropped exactly once. Cases run in a crash-isolated worker so that a stack overflow in a recursive drop is attributed to its case.".into();
     v.assumptions = vec![
         "references are held in safe Rust: the borrow checker already rules out use-after-free unless unimock's (unsafe-free) code misbehaves logically, so the checks target logical faults: wrong node returned, values replaced, early or double drops, recursion depth".into(),
-        "concurrent interleavings inside once_cell are not controlled (real threads only)".into(),
+        "the cells of the value chain are yield points of the scheduler (cfg unimock_verif hook), interleavings inside once_cell itself are not controlled".into(),
     ];
     v.subs.push(super::replay_corpus(ctx));
     let worker = std::cell::RefCell::new(Worker::new("c13"));
@@ -818,10 +818,19 @@ pub fn run(ctx: &Ctx) -> Verdict {
     v.subs.push(vcore::run_enumerated(ctx, "deep", deep_cases(), |c| {
         check_via(&worker, c).map(|i| CaseInfo { nontrivial: true, classes: i.classes })
     }));
+    // lent answers through one shared &Unimock under every schedule of 2 threads (sampled for 2-4): C10's engine
+    for mut s in super::c10::lent_reports(ctx) {
+        let renamed = format!("scheduled-{}", s.name);
+        s.rename(renamed);
+        v.subs.push(s);
+    }
     v
 }
 
 pub fn replay(_sub: &str, case: Value) -> Result<(), String> {
+    if _sub.starts_with("scheduled-lent-answers") {
+        return super::c10::replay("lent-answers", case);
+    }
     let case: ChainCase = serde_json::from_value(case).map_err(|e| format!("HARNESS: bad case: {e}"))?;
     let worker = std::cell::RefCell::new(Worker::new("c13"));
     check_via(&worker, &case).map(|_| ())
